@@ -124,7 +124,7 @@ func genC14(g *Gen) {
 	states := []string{"generic", "expression", "csv"}
 	quotes := []rune{'\'', '"'}
 	alpha := []rune{'\'', '"', 'a', 0xe9, 0x20ac, 0x1F600, ' ', '\n'}
-	ln := g.Pick(4, 5)
+	ln := g.Pick(4, 6)
 	tails := map[string][][]rune{
 		"expression": {{}, []rune(" + 1"), []rune(")")},
 		"csv":        {{}, []rune(",a"), []rune("\r\n")},
@@ -146,7 +146,7 @@ func genC14(g *Gen) {
 	})
 	// random Unicode strings, other quote characters
 	r := g.Rand()
-	n := g.Pick(3000, 60000)
+	n := g.Pick(3000, 150000)
 	for i := 0; i < n; i++ {
 		m := r.Intn(40)
 		s := make([]rune, m)
